@@ -1,6 +1,12 @@
 """C20 - the ring buffer is a FIFO queue (DESIGN.md section 5, C20)."""
 import vcheck as V
 
+META = {
+    "engine": "ring",
+    "technique": "Coq refinement proof (ring layout -> list queue, induction over op sequences) + extraction-based differential replay",
+    "level_text": "Machine-checked refinement: from every well-formed layout (any capacity >= 1, any head/tail, wrapped or not) every sequence of Push/Pop/Peek/Discard/Clear/ForEach/ForEachReverse/Len on the transcribed ring yields the list queue's outputs and final content; cleared slots hold the zero value; growth regimes 8 / x2 / +10%. The model is tied to ringbuffer.go by replaying exhaustive-depth and random op logs of the real RingBuffer[int] (results and internal head/tail/elements after every operation) in the extracted model.",
+    "level_note": "Trusted: Coq kernel; extraction (ExtrOcamlBasic only) and the OCaml driver; the in-package Go harness; generics instantiated at int in the differential run; Go's zero value modelled as a section variable. RINGBUFFER_MIN/EXP are regenerated from the source on every run.",
+}
 FILES = ["ring_test.go"]
 OBLIGATIONS = ["c20_refines", "c20_len", "c20_no_retention", "c20_new_ring", "c20_grow_regimes"]
 
@@ -15,9 +21,9 @@ def run(ctx):
         # search: the queue oracle over the deeper exhaustive sweep
         rep2, _ = V.harness_report(ctx, "^TestVerifC20$", "C20.report.json", env={"VERIF_TIER": "thorough"}, files=FILES)
         V.merge_report(ctx, rep2)
-    ctx.coverage["rule"] = ("every op sequence of depth %s over a 16-letter alphabet from 87 layouts (cap 1,2,3,4,8 x head x fill, "
+    ctx.coverage["rule"] = ("every op sequence of depth %s over a 16-letter alphabet from %s layouts (cap 1,2,3,4,8 x head x fill, "
                             "built directly in-package) + random sequences incl. growth past 1024; non-trivial = the "
-                            "history wraps (head > tail) or grows" % (rep or {}).get("extra", {}).get("exhaustive_depth"))
+                            "history wraps (head > tail) or grows" % ((rep or {}).get("extra", {}).get("exhaustive_depth"), (rep or {}).get("extra", {}).get("starts")))
     ctx.assumptions += [
         "element type of the differential run is int (the model and the theorems are polymorphic)",
         "visitors are deterministic functions of the values shown to them",
